@@ -36,6 +36,8 @@ type Dir struct {
 	targetDir string
 
 	prev *string
+	// version directories that are no longer live and still have to be removed
+	stale []string
 }
 
 func New(opts Options) *Dir {
@@ -105,13 +107,23 @@ func (d *Dir) Write(files map[string][]byte) error {
 
 	d.log.Infof("Atomic write to %s", d.target)
 
+	// The version that was live until now is stale, together with any older one
+	// that could not be removed when its turn came. The new version is recorded
+	// as the live one whether or not the removal succeeds: it is published.
 	if d.prev != nil {
-		if err := os.RemoveAll(*d.prev); err != nil {
-			return err
-		}
+		d.stale = append(d.stale, *d.prev)
 	}
-
 	d.prev = &newDir
 
-	return nil
+	var rerr error
+	remaining := d.stale[:0]
+	for _, dir := range d.stale {
+		if err := os.RemoveAll(dir); err != nil {
+			rerr = err
+			remaining = append(remaining, dir)
+		}
+	}
+	d.stale = remaining
+
+	return rerr
 }
